@@ -151,20 +151,10 @@ func arrayHasSuffix(suffix rel.Value, subject rel.Array) (rel.Value, error) {
 
 	subjectVals := subject.Values()
 	suffixVals := suffixArray.Values()
-	suffixOffset := suffixArray.Count() - 1
-
-	for _, val := range subjectVals[subject.Count()-1:] {
-		if suffixOffset > -1 && val.Equal(suffixVals[suffixOffset]) {
-			suffixOffset--
-			if suffixOffset == -1 {
-				break
-			}
-		} else {
-			return rel.NewBool(false), nil
-		}
+	if len(subjectVals) < len(suffixVals) {
+		return rel.NewBool(false), nil
 	}
-
-	return rel.NewBool(true), nil
+	return rel.NewBool(matchAt(subjectVals[len(subjectVals)-len(suffixVals):], suffixVals)), nil
 }
 
 func arrayTrimPrefix(prefix rel.Value, subject rel.Array) (rel.Value, error) {
@@ -205,25 +195,36 @@ func arrayTrimSuffix(suffix rel.Value, subject rel.Array) (rel.Value, error) {
 // Case: subject=[1,2,3,4], sub=[2,3], return 1
 // Case: subject=[1,2,3,4], sub=[2,5], return -1
 func search(subject, sub []rel.Value) int {
-	subjectOffset, subOffset := 0, 0
-
-	for ; subjectOffset < len(subject); subjectOffset++ {
-		if subOffset < len(sub) && subject[subjectOffset].Equal(sub[subOffset]) {
-			subOffset++
-		} else {
-			if subOffset > 0 && subOffset < len(sub) {
-				subOffset = 0
-				subjectOffset--
-			}
+	if len(sub) == 0 {
+		if len(subject) == 0 {
+			return -1
 		}
-		if subOffset == len(sub) {
-			break
-		}
+		return 0
 	}
-
-	if subjectOffset < len(subject) {
-		// see len(sub) > 1
-		return (subjectOffset + 1) - len(sub)
+	for i := 0; i+len(sub) <= len(subject); i++ {
+		if matchAt(subject[i:], sub) {
+			return i
+		}
 	}
 	return -1
+}
+
+// matchAt reports whether subject starts with sub. Holes (nil) only match holes.
+func matchAt(subject, sub []rel.Value) bool {
+	if len(subject) < len(sub) {
+		return false
+	}
+	for i, v := range sub {
+		w := subject[i]
+		if v == nil || w == nil {
+			if v != nil || w != nil {
+				return false
+			}
+			continue
+		}
+		if !w.Equal(v) {
+			return false
+		}
+	}
+	return true
 }
